@@ -20,11 +20,11 @@ Theorem C09_exit_point_active_means : forall rn s p,
 Proof. exact exit_pt_active_iff. Qed.
 Print Assumptions C09_exit_point_active_means.
 
-(* entering an exit point with a user event (one that converts to the exit point's event; front::none and the initial
-   event do not): its entry behaviour, then the converted event (exit point's event type, original payload) goes to the
+(* entering an exit point with an event that converts to the exit point's event (every event of the definition does;
+   front::none, the completion event, does not): its entry behaviour, then the converted event (exit point's event type, original payload) goes to the
    enclosing machine *)
 Theorem C09_exit_point_forwards_converted_event : forall cf contained mc children fuel s ev ety rn g,
-  child children s = None -> s_kind (get_state mc s) = KExitPt ety -> g_plan g = [] -> EV_FIRST_USER <= e_ty ev ->
+  child children s = None -> s_kind (get_state mc s) = KExitPt ety -> g_plan g = [] -> e_ty ev <> EV_NONE ->
   exec_entry cf contained mc children fuel s ev EkPlain rn g =
     (Some tt, rn, Glob (Cb KEntry [] s ev false (act rn) :: g_tr g) (S (g_cb g)) [] (g_val g)
                        (g_up g ++ [Evt ety (e_pay ev)]) (g_bad g)).
